@@ -436,7 +436,9 @@ class Engine(FsMixin, ExprMixin, StmtMixin, CallMixin, SpecMixin, BuiltinMixin, 
         guard = self.effect_guards.get(e.name)
         if guard is None:
             return
-        eb = {k: v for k, v in st.env.items() if isinstance(v, V)}
+        # names of the function under contract (its parameters) stay visible when the effect happens inside an inlined helper
+        eb = {k: v for k, v in (self.entry_state.env.items() if self.entry_state is not None else ()) if isinstance(v, V)}
+        eb.update({k: v for k, v in st.env.items() if isinstance(v, V)})
         for k_, a_ in enumerate(e.args):
             eb[f"_arg{k_}"] = a_
         for g in ([guard] if isinstance(guard, (str, tuple)) else guard):
